@@ -179,7 +179,15 @@ func genScenario(rt *rapid.T, p Profile) Scenario {
 			spec.Sync = true
 		}
 		if p.Serializable && rapid.IntRange(0, 3).Draw(rt, "serializable") == 0 {
-			spec.Serializable = true
+			// a SERIALIZABLE transaction with a successor on one of its targets is the listed C09 findings
+			// F-serializable-successor-never-woken / F-serializable-requeue-ping-pong: left out while listed
+			if vstat.IsListed("F-serializable-successor-never-woken") || vstat.IsListed("F-serializable-requeue-ping-pong") {
+				if len(sc.Excl) == 0 {
+					sc.Excl = append(sc.Excl, "F-serializable-successor-never-woken")
+				}
+			} else {
+				spec.Serializable = true
+			}
 		}
 		sc.Actions = append(sc.Actions, Action{Kind: "set", Set: &spec})
 		nLogged++
